@@ -53,7 +53,7 @@ Addr2 == <<97, AT>> \o DomSeq[v[2]]
 Vec2 == LET mode == ModeOfEnum(v[3])  tld == v[4] = 1
             out == Outcome(O, mode, tld, MaskOf(v[1]), ConvAscii(DomSeq[v[2]]), Addr2)
             pin == EmailP(O, mode, tld, Addr2)
-        IN <<11, v[3], v[4], v[1], Len(Addr2)>> \o Addr2 \o <<IF pin.exp \in {0, 1} THEN 1 ELSE 0, out.ret, out.err>>
+        IN <<11, v[3], v[4], v[1], Len(Addr2)>> \o Addr2 \o <<IF pin.exp \in {0, 1, 3} THEN 1 ELSE 0, out.ret, out.err>>
 \* [10, rfc enum, tld_check, allow mask]
 Vec3 == LET st == EavInit(Raw) IN <<10, st.rfc, IF st.tld THEN 1 ELSE 0>> \o <<FoldLeft(LAMBDA a, b : a + (IF b \in st.allow THEN 2 ^ b ELSE 0), 0, [i \in 1..11 |-> i - 1])>>
 
